@@ -33,3 +33,19 @@ ASSUMPTIONS = [
     "A8 lru_cache is transparent for pure functions",
     "A10 module constants are those of the current tree",
 ]
+
+# what each partial claim leaves undecided (repeated in the evidence; details in DESIGN.md section 5)
+PROP_ASSUMPTIONS = {
+    "C01": ["serial read segmentation (bytes_read) is checked natively and exhaustively for short streams only (bounded, not proved)"],
+    "C05": ["parsers outside the symbolic reach (1030, 31DA, 2411, 0418, 3220 ...) only have a bounded native stand-in"],
+    "C08": ["liveness (the retry budget is reached), real-time spacing, ordering under equal priority and equal clock reading, more than two callers: not decided"],
+    "C11": ["the window bound is a paper lemma over the proved per-call contracts (DESIGN.md C11), not machine-checked; the gap task's timing is not decided"],
+    "C13": ["about 150 composite views (schema/params/status dictionaries, OpenTherm views) are not under contract; they only have the bounded native sweep views_answer_after_a_mutated_packet_native",
+            "histories are not quantified over: contracts are per stored message / per call"],
+    "C14": ["MultiZone._handle_msg routing of array payloads to zones is not decided"],
+    "C16": ["the gateway-level snapshot -> restore -> snapshot fixpoint is not decided; only the storage form, the filter and expiry are"],
+    "C17": ["zlib compress/decompress are inverse (A12); the decode loop is unrolled for at most 3 days x 3 switchpoints"],
+    "C18": ["zlib rejects a blob stitched from two versions (A12); termination when the schedule keeps changing is left to the caller's timeout; at most one change per transfer is explored"],
+    "C19": ["views of at most 3 entries (indexes and timestamps unbounded)"],
+    "C20": ["interleavings, timing and the send-retry states are not decided"],
+}
